@@ -243,7 +243,7 @@ func BFS[I any](c *Ctx, m *Machine[I]) bfsStats {
 					}
 					// ... and with the queries issued once only, after each single step in turn: what a query
 					// leaves behind may be undone by the next query, or only matter if no query follows
-					for at := 1; at < len(h); at++ {
+					for at := 1; at < len(h) && len(h) <= 3; at++ { // (histories of four steps get the every-step variant only)
 						if in3, ok3 := rebuildObserved(m, h, at); ok3 && m.Enabled(in3, op) {
 							r.trans++
 							for _, b := range safeApply(m, in3, op, true) {
